@@ -140,6 +140,27 @@ def shard(p):
         if rng.random() < 0.5:
             a, b = b, a
         pairs.append((a, b))
+    # ... and a well-formed literal behind one that the number reader REFUSES (an exponent beyond its range, a second point, a dangling
+    # exponent) in the same query: a buffer that the error path leaves dirty meets the next literal (seed C07-j)
+    bad_first = []
+    for _ in range(p.get("n_pairs", 120) // 2):
+        bad = rng.choice(["1e99999999999%", "1e99999999999", "2.5e-99999999999%", "1e5.5%", "5e-%", "1..2", "7e+", "3e99999999999999999999%", "1e4294967300", ".e5%"])
+        nd = rng.randint(1, 6)
+        good = "".join(rng.choice("123456789") for _ in range(nd)) + rng.choice(["", ".5", ".25"]) + rng.choice(["", "e3", "E-2", "e+10"]) + rng.choice(["%", "%", "", " %"])
+        bad_first.append((bad, good))
+    if bad_first:
+        with Driver(p["bins"][p["builds"][0]]) as d:
+            reps_b = d.call_many([{"op": "query", "q": "(%s) (%s) (%s)" % (b_, g_, g_)} for b_, g_ in bad_first], timeout=300)
+        for (b_, g_), rep in zip(bad_first, reps_b):
+            acc.evaluations += 1
+            acc.count("well_formed_literal_behind_a_refused_one")
+            its = rep.get("items") or []
+            want = exact.lit_from_text(g_.replace(" ", "").rstrip("%")) / (100 if g_.strip().endswith("%") else 1)
+            got = [Fraction(int(x["ok"]["v"][0]), int(x["ok"]["v"][1])) if "ok" in x else None for x in its]
+            if len(its) >= 2 and got[-2:] != [want, want] and not all(x is None for x in got):
+                acc.violate("c07:literal-behind-a-refused-one", "`(%s) (%s) (%s)` read as %s, the last two spell %s" % (b_, g_, g_, got, want), {"literal": "(%s) (%s) (%s)" % (b_, g_, g_), "build": p["builds"][0]})
+            elif len(its) == 3 and got[1:] != [want, want]:
+                acc.violate("c07:literal-behind-a-refused-one", "`(%s) (%s) (%s)` read as %s, the last two spell %s" % (b_, g_, g_, got, want), {"literal": "(%s) (%s) (%s)" % (b_, g_, g_), "build": p["builds"][0]})
     if pairs:
         with Driver(p["bins"][p["builds"][0]]) as d:
             reqs = []
